@@ -5,8 +5,8 @@ import numpy as np
 
 from .. import emapcommon as E
 
-RULE = ("reference = random tree / cyclic graph / exactly collinear chain (axes, diagonals, integer directions, "
-        "shuffled numbering) / chain with one exactly collinear anchor / quarter-integer lattice (distance ties), "
+RULE = ("reference = random tree / cyclic graph / exactly collinear chain (axes, diagonals, integer directions, lines tilted off a "
+        "coordinate axis by 2^-k, shuffled numbering) / anchor bent by 10^-1.5..10^-4.5 rad / chain with one exactly collinear anchor / quarter-integer lattice (distance ties), "
         "3..40 atoms; target 1..60 atoms incl. atoms exactly on a reference atom and lattice mid-points; "
         "s in {1, 0.5, 2, 1e-3} U (0,2]. Non-trivial = at least 2 anchors used by the map or a collinear-branch "
         "frame in use; distinct by canonical hash of the case.")
@@ -16,10 +16,11 @@ def generate(ctx):
     rng = ctx.rng
     for _ in range(ctx.n(250, 12000)):
         cls = rng.choice(["generic-tree", "generic-tree", "generic-cyclic", "collinear-chain", "axis-chain",
-                          "partly-collinear", "lattice"])
+                          "tilted-axis-chain", "partly-collinear", "nearly-collinear", "lattice"])
         pos, bonds, cls = E.gen_ref(rng, cls)
         yield {"ref": {"pos": pos, "bonds": [list(b) for b in bonds]}, "tgt": E.gen_tgt(rng, pos, cls),
-               "s": E.gen_scale(rng), "mode": "same", "cls": cls, "seed": rng.randrange(2 ** 31)}
+               "s": E.gen_scale(rng), "mode": "same", "cls": cls, "seed": rng.randrange(2 ** 31),
+               "ident": rng.choice(["fresh", "fresh", "construction-object", "reused-object"])}
 
 
 def exact_closest(refpos, anchors, p):
@@ -45,7 +46,8 @@ def evaluate(ctx, case):
     ctx.count("cls:" + case["cls"])
     ctx.count("frames-collinear-branch", len(coll))
     ctx.count("frames-generic-branch", len(used) - len(coll))
-    out = impl["out0"]
+    out = impl["out"]      # mode "same": the argument has the construction configuration (see "ident")
+    ctx.count("ident:" + case.get("ident", "fresh"))
     fails = []
     if not np.isfinite(out).all():
         fails.append("non-finite")
@@ -73,4 +75,4 @@ def evaluate(ctx, case):
     ctx.oracle_ok(len(tgt))
     for f in fails:
         ctx.oracle_fail(f"exchange_map:{f}:{case['cls']}", case, {"out": out, "equiv": impl["equiv"]})
-    E.ask_model(ctx, case, impl, np.array(refpos, dtype=float), impl["draws_call0"], out, "map(ref)")
+    E.ask_model(ctx, case, impl, np.array(refpos, dtype=float), impl["draws_call"], out, "map(ref)")
